@@ -20,6 +20,7 @@ CHECKS = {
     'C07': 'checks_wire.check_c07',
     'C08': 'checks_rt.check_c08',
     'C13': 'checks_wire.check_c13',
+    'C18': 'checks_misc.check_c18',
     'C19': 'checks_misc.check_c19',
     'C20': 'checks_misc.check_c20',
 }
